@@ -13,34 +13,110 @@ import json
 import sys
 
 
+def _gc_extra(case):
+    """extra keyword arguments of generate_commands carried by the case (JSON form -> what a caller would pass)"""
+    kw = {}
+    x = case.get('gc_extra') or {}
+    for k, v in x.items():
+        if k == 'skip_contigs':
+            kw[k] = set(v) if case.get('skip_as') == 'set' else list(v)
+        elif k == 'alt_spans':
+            kw[k] = {c: tuple(t) for c, t in v.items()}
+        else:
+            kw[k] = v
+    return kw
+
+
+def _rows_from_frame(df):
+    rows = []
+    for key, ser in df.iterrows():
+        row = {}
+        for cell, v in ser.items():
+            if v == v and v != 0:                      # NaN = cell absent from this bin
+                if isinstance(cell, tuple):            # (alias, cell) of the prefixed entry point
+                    cell = '|'.join(str(c) for c in cell)
+                row[cell] = int(v) if float(v).is_integer() else float(v)
+        rows.append((list(key) if isinstance(key, tuple) else [key], row))
+    return rows
+
+
+def _regions(case):
+    r = case.get('regions')
+    if r is None:
+        return None
+    return [x if isinstance(x, str) else tuple(x) for x in r]     # a fresh list per call: the code rewrites it
+
+
+def run_cli(case, paths):
+    """the installed script bamBinCounts.py, in its own interpreter, the way a user runs it"""
+    import gzip
+    import os
+    import pickle
+    import shutil
+    import subprocess
+    import tempfile
+    from mc import bind
+    work = tempfile.mkdtemp(prefix='c12cli_', dir='/dev/shm')
+    try:
+        out = os.path.join(work, 'counts' + case.get('out_suffix', '.dict.gz'))
+        script = os.path.join(bind.REPO, 'singlecellmultiomics', 'bamProcessing', 'bamBinCounts.py')
+        cmd = [sys.executable, script, paths[0], '-o', out]
+        for k, v in case['argv']:
+            cmd += [k, str(v)]
+        env = dict(os.environ, PYTHONPATH=bind.REPO, PYTHONHASHSEED='0')
+        p = subprocess.run(cmd, capture_output=True, text=True, cwd=work, env=env, timeout=600)
+        if p.returncode != 0:
+            raise RuntimeError('bamBinCounts.py exit %d: %s' % (p.returncode, p.stderr.strip().splitlines()[-1:] or ''))
+        if out.endswith('.pickle.gz'):
+            import pandas as pd
+            df = pd.read_pickle(out)                  # columns = bins, rows = cells
+            return _rows_from_frame(df.T)
+        with gzip.open(out, 'rb') as f:
+            counts = pickle.load(f)
+        return [(list(k), dict(v)) for k, v in counts.items()]
+    finally:
+        shutil.rmtree(work, ignore_errors=True)
+
+
 def call(case, path):
-    """-> canonical matrix: sorted list of [key (list), sorted [cell, n] pairs].  Exceptions propagate."""
+    """-> canonical matrix: sorted list of [key (list), sorted [cell, n] pairs].  Exceptions propagate.
+    path: one path or a list of paths (several libraries in one call)"""
     from singlecellmultiomics.bamProcessing import bamBinCounts as B
     from . import c12_bam as G
     fn = case['fn']
+    paths = list(path) if isinstance(path, (list, tuple)) else [path]
     sink = io.StringIO()
     with contextlib.redirect_stdout(sink):
         if fn == 'obtain_counts':
+            arg = path
+            if case.get('path_as') == 'list':
+                arg = list(paths)
             if case.get('defaults'):
-                commands = B.generate_commands(path, bin_size=case['bin_size'], bins_per_job=case['bins_per_job'])
+                commands = B.generate_commands(arg, bin_size=case['bin_size'], bins_per_job=case['bins_per_job'])
                 counts = B.obtain_counts(commands, reference=None, live_update=False)
             else:
-                commands = B.generate_commands(path, bin_size=case['bin_size'], bins_per_job=case['bins_per_job'],
+                commands = B.generate_commands(arg, bin_size=case['bin_size'], bins_per_job=case['bins_per_job'],
                                                min_mq=case['min_mq'], max_fragment_size=case['max_fragment_size'],
-                                               key_tags=case['key_tags'], kwargs=case['kwargs'])
+                                               key_tags=case['key_tags'], kwargs=case['kwargs'], **_gc_extra(case))
+                okw = {}
+                if case.get('count_function') == 'explicit':
+                    okw['count_function'] = B.count_fragments_binned
                 counts = B.obtain_counts(commands, reference=None, live_update=False, threads=case['threads'],
-                                         show_progress=bool(case.get('show_progress')))
+                                         show_progress=bool(case.get('show_progress')), **okw)
             rows = [(list(k), dict(v)) for k, v in counts.items()]
         elif fn == 'get_binned_counts':
-            df = B.get_binned_counts([path], case['bin_size'], regions=None,
-                                     filter_function=G.PropertyFilter(case['min_mq']), n_threads=case['threads'])
-            rows = []
-            for key, ser in df.iterrows():
-                row = {}
-                for cell, v in ser.items():
-                    if v == v and v != 0:                      # NaN = cell absent from this bin
-                        row[cell] = int(v) if float(v).is_integer() else float(v)
-                rows.append((list(key) if isinstance(key, tuple) else [key], row))
+            flt = None if case.get('filter') == 'default' else G.PropertyFilter(case['min_mq'])
+            df = B.get_binned_counts(paths, case['bin_size'], regions=_regions(case),
+                                     filter_function=flt, n_threads=case['threads'])
+            rows = _rows_from_frame(df)
+        elif fn == 'get_binned_counts_prefixed':
+            flt = None if case.get('filter') == 'default' else G.PropertyFilter(case['min_mq'])
+            bam_dict = {alias: [paths[i] for i in idx] for alias, idx in case['bam_dict']}
+            df = B.get_binned_counts_prefixed(bam_dict, case['bin_size'], regions=_regions(case),
+                                              filter_function=flt, n_threads=case['threads'])
+            rows = _rows_from_frame(df)
+        elif fn == 'cli':
+            rows = run_cli(case, paths)
         else:
             raise ValueError(fn)
     out = []
